@@ -17,14 +17,16 @@ def gen_config(rng, tier):
     s['MAX_RECEIVER_CONNECTIONS'] = rng.choice([1, 2, 3])
   if rng.random() < 0.25:
     s['METRIC_CLIENT_IDLE_TIMEOUT'] = rng.choice([5, 30])
+  ig.listener_knobs(rng, s)
   return {'daemon': 'cache', 'settings': s, 'files': {}}
 
 
 def cfg_sig(cfg):
   s = cfg['settings']
-  return 'maxlen=%s fc=%s maxconn=%s idle=%s' % (
+  return 'maxlen=%s fc=%s maxconn=%s idle=%s log=%s%s' % (
     s.get('PICKLE_RECEIVER_MAX_LENGTH', 'default'), s.get('USE_FLOW_CONTROL'),
-    s.get('MAX_RECEIVER_CONNECTIONS', 'inf'), s.get('METRIC_CLIENT_IDLE_TIMEOUT'))
+    s.get('MAX_RECEIVER_CONNECTIONS', 'inf'), s.get('METRIC_CLIENT_IDLE_TIMEOUT'),
+    int(s['LOG_LISTENER_CONN_SUCCESS']), int(s['LOG_LISTENER_CONN_LOST']))
 
 
 def gen_plan(rng, cfg, tier):
@@ -48,6 +50,7 @@ def gen_plan(rng, cfg, tier):
     extra.append(rng.choice([['cachefull'], ['cachefull'], ['cachespace'], ['advance', 4.0], ['advance', 29.0]]))
   plan = {'prop': PROP, 'clients': clients, 'steps': ig.gen_steps(rng, clients, extra)}
   plan['late_connect'] = rng.random() < 0.6
+  plan['finish_reset'] = [i for i in range(len(clients)) if rng.random() < 0.25]
   return plan
 
 
